@@ -269,6 +269,21 @@ def o_C05(tr: Trace, h: str = "D") -> Fails:
             ok = any(got == cnd for cnd in cands)
             if not ok and disp and got is None and path not in e.fs:
                 if cancelled:
+                    # only an INCOMPLETE file may be discarded: the delivery code of this completion (the
+                    # Transaction-Finished indication of this call, else the next Finished PDU) says which it is
+                    deliv = None
+                    for x in after.ind:
+                        nm, pp = ind_parts(x)
+                        if nm == "finished":
+                            deliv = pp[2]
+                    if deliv is None:
+                        nxt = next((y for y in tr.for_h(h) if y.idx > e.idx and y.op == "get" and y.pdu
+                                    and pdu_kind(y.pdu) == "fin"), None)
+                        if nxt is not None:
+                            deliv = pdu_fields(nxt.pdu).get("deliv")
+                    if deliv == "0":
+                        f.add("C05:complete-file-discarded-on-cancellation",
+                              {"path": path, "op": e.line[:200], "delivery_code": deliv}, e.idx)
                     ok = True
                     cands = [None]
                 else:
@@ -489,6 +504,18 @@ def o_C07(tr: Trace, c: Cfg, h: str = "S") -> Fails:
                 f.add(f"C07:{k}-exceeds-max-packet-len", {"pdu": p[:160], "max_packet_len": maxpkt}, x.idx)
             if k == "fd" and q["data"] != "-" and len(q["data"]) // 2 > seg:
                 f.add("C07:file-data-longer-than-segment-length", {"pdu": p[:160], "seg": seg}, x.idx)
+        if not c.metadata_only:
+            # also in a disturbed run (NAKs served, timers, repeated EOFs): every EOF (no error) announces the
+            # whole file — its size and its checksum (as long as the user has not rewritten the file meanwhile)
+            for cl, p, x in pdus:
+                if pdu_kind(p) != "eof":
+                    continue
+                qe = pdu_fields(p)
+                if qe["cond"] == "0" and x.fs_before.get(c.src_path) == F and \
+                        (int(qe["size"]) != n or qe["cks"] != ref_checksum(c.cks, F).hex()):
+                    f.add("C07:eof-fields", {"pdu": p[:200], "n": n, "cks": ref_checksum(c.cks, F).hex(),
+                                             "disturbed": disturbed}, x.idx)
+                    break
         if disturbed:
             continue
         # undisturbed: exact stream shape
